@@ -60,19 +60,27 @@ def realMatch (s : List Char) : Option (List Char × List Char) :=
   let d := s.takeWhile isDigit
   if d.isEmpty then none else
   match s.dropWhile isDigit with
-  | '.' :: r =>
-    let f := r.takeWhile isDigit
-    if f.isEmpty then none else some (d ++ '.' :: f, r.dropWhile isDigit)
-  | _ => none
+  | [] => none
+  | c :: r =>
+    if c == '.' then
+      let f := r.takeWhile isDigit
+      if f.isEmpty then none else some (d ++ '.' :: f, r.dropWhile isDigit)
+    else none
+
+/-- the text after a `0<letter>` or `<sigil>` prefix -/
+def prefixBody (letter sigil : Char) : List Char → Option (List Char)
+  | [] => none
+  | c :: r =>
+    if c == sigil then some r
+    else if c == '0' then
+      match r with
+      | [] => none
+      | b :: r' => if b == letter then some r' else none
+    else none
 
 /-- `(0b|%)[0-1]+` -/
 def binMatch (s : List Char) : Option (Nat × List Char) :=
-  let body : Option (List Char) :=
-    match s with
-    | '0' :: 'b' :: r => some r
-    | '%' :: r => some r
-    | _ => none
-  match body with
+  match prefixBody 'b' '%' s with
   | none => none
   | some r =>
     let b := r.takeWhile isBin
@@ -80,12 +88,7 @@ def binMatch (s : List Char) : Option (Nat × List Char) :=
 
 /-- `(0x|\$)[0-9a-fA-F]+` -/
 def hexMatch (s : List Char) : Option (Nat × List Char) :=
-  let body : Option (List Char) :=
-    match s with
-    | '0' :: 'x' :: r => some r
-    | '$' :: r => some r
-    | _ => none
-  match body with
+  match prefixBody 'x' '$' s with
   | none => none
   | some r =>
     let h := r.takeWhile isHex
@@ -114,8 +117,8 @@ def lexOne (s : List Char) : Step :=
     else if isGlyph c then .tok (.glyph c) cs
     else if c == '\'' then
       match cs.dropWhile notQuoteNl with
-      | '\'' :: rest => .tok (.str (cs.takeWhile notQuoteNl)) rest
-      | _ => .err
+      | [] => .err
+      | q :: rest => if q == '\'' then .tok (.str (cs.takeWhile notQuoteNl)) rest else .err
     else if c == ';' then .skip (cs.dropWhile notNl)
     else .err
 
